@@ -1,12 +1,13 @@
 """C10 $merge and $replace behave as if the referenced subtree were written inline (metamorphic monitor)."""
 import json
 
-from ..core import Result, out_bytes
+from ..core import Result, out_bytes, file_crosscheck
+import random
 from .. import gen, model
 from ..val import veq, clone, walk, get_path
 
 ID = 'C10'
-NEED_BINS = False
+NEED_BINS = True
 SIZES = {'quick': 20000, 'thorough': 1500000}
 REQUIRED_EVENTS = ['inline_agreed', 'required_failures', 'target_unchanged_checked']
 RULE = ('from a random $-free tree (1-3 document streams) choose a target path and a non-overlapping host position; plant one reference in '
@@ -293,6 +294,9 @@ def check_case(ctx, case):
                            with_ref=vd.get('values'), inline=rs[3 * n - 2].get('values'))
     res.ev('inline_agreed')
     res.labels.add('outcome:inline-equal')
+    if case.get('i', 0) % 12 == 0:
+        if not file_crosscheck(ctx, res, docs, True, out_bytes(rd), {'docs': docs, 'plan': plan}, random.Random(case.get('i', 0))):
+            return res
     # unchanged target: the target document's own output is the same with and without the host (when the host lives elsewhere)
     if rm['err'] is None and hd != td:
         a = [json.loads(l) for l in out_bytes(rd).decode().splitlines() if l.strip()]
